@@ -1,4 +1,61 @@
 package main
 
+import (
+	"go/ast"
+)
+
+// c03Conds: every `if` condition of a function, in source order
+func c03Conds(rel, fn string) []string {
+	var res []string
+	ast.Inspect(funcDecl(rel, fn), func(n ast.Node) bool {
+		if s, ok := n.(*ast.IfStmt); ok {
+			res = append(res, c05Expr(s.Cond))
+		}
+		return true
+	})
+	return res
+}
+
+// c03Default: value of a key of createDefaults()
+func c03Default(key string) string {
+	var res []string
+	ast.Inspect(funcDecl("pkg/converters/ingress/defaults.go", "createDefaults"), func(n ast.Node) bool {
+		if kv, ok := n.(*ast.KeyValueExpr); ok {
+			if sel, ok := kv.Key.(*ast.SelectorExpr); ok && sel.Sel.Name == key {
+				if s, ok := lit(kv.Value); ok {
+					res = append(res, s)
+				}
+			}
+		}
+		return true
+	})
+	return one(res, "createDefaults "+key)
+}
+
 func factsC03() {
+	// ---- C03 (M-Sync): constants and conditions the model of the full sync transcribes
+	svc := "pkg/converters/utils/services.go"
+	addStrList("c03FindServicePortConds", c03Conds(svc, "FindServicePort"),
+		"services.go FindServicePort: by name or targetPort string, then (if numeric) by port number")
+	addStrList("c03MatchPortConds", c03Conds(svc, "matchPort"), "services.go matchPort: protocol test")
+	addStr("c03PathTypeOrder", c03Default("GlobalPathTypeOrder"), "defaults.go: path-type-order")
+	addStr("c03InitialWeight", c03Default("BackInitialWeight"), "defaults.go: initial-weight")
+	addStr("c03AlwaysAddHTTPS", c03Default("HostSSLAlwaysAddHTTPS"), "defaults.go: ssl-always-add-https (HasTLS = has a tls entry)")
+	seps := []string{}
+	for _, s := range strLits("pkg/haproxy/types/backends.go", "buildID") {
+		seps = append(seps, s)
+	}
+	addStrList("c03BackendIDSeps", seps, "backends.go buildID: namespace + sep + name + sep + port")
+	addStrList("c03SortIngressConds", c03Conds("pkg/converters/ingress/ingress.go", "sortIngress"),
+		"ingress.go sortIngress: creation timestamp first, then namespace/name")
+	addStrList("c03HasTLS", func() []string {
+		var res []string
+		ast.Inspect(methodDecl("pkg/haproxy/types/host.go", "Host", "HasTLS").Body, func(n ast.Node) bool {
+			if r, ok := n.(*ast.ReturnStmt); ok && len(r.Results) == 1 {
+				res = append(res, c05Expr(r.Results[0]))
+			}
+			return true
+		})
+		return res
+	}(), "host.go Host.HasTLS")
 }
